@@ -376,3 +376,47 @@ Qed.
 
 Lemma next_toggle_alternates t : t < 2 -> next_toggle t = 1 - t /\ next_toggle (next_toggle t) = t.
 Proof. intro H. assert (t = 0 \/ t = 1) as [->| ->] by lia; split; reflexivity. Qed.
+
+Lemma rr_match toggle dst mt reg data script t w m :
+  request_response toggle dst mt reg data script = (t, w, Ok m) ->
+  m_src m = dst /\ m_dest m = 161 + next_toggle toggle /\
+  exists f, In (RdBytes f) script /\ ib_decode f = Ok m.
+Proof.
+  unfold request_response. destruct (ib_encode _) as [req|e]; [|discriminate].
+  destruct (rr_loop _ _ _ _ _ _) as [w' r'] eqn:L. intro H. injection H as _ _ ->.
+  exact (rr_loop_ok _ _ _ _ _ _ _ _ L).
+Qed.
+
+Lemma ib_encode_err m e : ib_encode m = Err e -> e = EValue.
+Proof.
+  unfold ib_encode. intro E.
+  repeat match type of E with (if ?c then _ else _) = _ => destruct c end;
+    try discriminate; injection E as <-; reflexivity.
+Qed.
+
+Lemma rr_bounded toggle dst mt reg data script t w r :
+  request_response toggle dst mt reg data script = (t, w, r) ->
+  t = next_toggle toggle /\
+  ((w = [] /\ r = Err EValue /\ ib_encode (mkmsg dst (161 + next_toggle toggle) mt reg data) = Err EValue) \/
+   exists req k, ib_encode (mkmsg dst (161 + next_toggle toggle) mt reg data) = Ok req /\
+                 w = req :: repeat req k /\ (k <= MAX_RETRY)%nat).
+Proof.
+  unfold request_response. destruct (ib_encode _) as [req|e] eqn:E.
+  - destruct (rr_loop _ _ _ _ _ _) as [w' r'] eqn:L. intro H. injection H as <- <- <-. split; [reflexivity|].
+    right. destruct (rr_loop_writes _ _ _ _ _ _ _ _ (Nat.le_0_l _) L) as (k & -> & K).
+    exists req, k. repeat split; try reflexivity. lia.
+  - intro H. injection H as <- <- <-. split; [reflexivity|]. left.
+    apply ib_encode_err in E. subst e. repeat split; reflexivity.
+Qed.
+
+Lemma rr_reads toggle dst mt reg data s1 s2 :
+  length s1 = S MAX_RETRY ->
+  request_response toggle dst mt reg data (s1 ++ s2) = request_response toggle dst mt reg data s1 /\
+  snd (request_response toggle dst mt reg data s1) <> Err EExhausted.
+Proof.
+  intro L. unfold request_response. destruct (ib_encode _) as [req|e] eqn:E.
+  - destruct (rr_loop_reads req dst (161 + next_toggle toggle) s1 s2 0 [req] (Nat.le_0_l _)) as [A B].
+    { rewrite L. lia. }
+    rewrite A. destruct (rr_loop _ _ _ _ s1 _) as [w r]. split; [reflexivity|exact B].
+  - split; [reflexivity|]. apply ib_encode_err in E. subst e. discriminate.
+Qed.
